@@ -282,7 +282,7 @@ def c_history(case, ctx):
             # a failed application must not poison later ones
             if pool:
                 do_apply(pool[0], "apply_after_failed_apply")
-    dd = digest.digest_diff(d_t, digest.digest(t, skip=_CACHE))
+    dd = digest.parameter_mutation(d_t, digest.digest(t, skip=_CACHE))
     ctx.expect(dd is None, "transform_parameters_changed", lambda: repr(dd))
     ctx.nontrivial(n_apply >= 3 and reused)
 
@@ -374,11 +374,77 @@ def c_constrain(case, ctx):
     ctx.expect(not np.any(got[clearly_out]), "constrain_to_pointcloud.outside_pixel_true", "%d outside pixels are True" % int(got[clearly_out].sum()))
 
 
+# ------------------------------------------------------------------------------------------ boundary points
+@st.composite
+def s_boundary(draw):
+    kind = draw(st.sampled_from(PWA_KINDS))
+    c = draw(objs.warp_case(kind="CachedPWA" if kind != "PythonPWA" else "PythonPWA"))
+    c["kind"] = kind
+    nb = draw(st.integers(1, 4))
+    return {
+        "t": c,
+        # points on hull edges, nudged outward (positive) or inward by k units of 2.2e-15: which side of the boundary
+        # such a point falls on is a matter of rounding - but it is the same matter in every batch
+        "edge": draw(st.lists(st.tuples(st.integers(0, 31), gen.q(0.1, 0.9), st.integers(-8, 64)).map(list), min_size=nb, max_size=nb)),
+        "inside": draw(objs.bary_picks(1, 5)),
+        "order": draw(st.integers(0, 5)),
+        "ks": draw(st.lists(st.sampled_from([1, 2, 3, 4, 5, 7]), min_size=1, max_size=3, unique=True)),
+    }
+
+
+def _outcome(t, x, bs):
+    try:
+        return np.zeros(x.shape[0], dtype=bool), t.apply(x, batch_size=bs)
+    except TriangleContainmentError as e:
+        return np.asarray(e.points_outside_source_domain, dtype=bool), None
+
+
+def c_boundary(case, ctx):
+    from scipy.spatial import ConvexHull
+
+    tc = case["t"]
+    src = gen.arr(tc["src"])
+    hull = ConvexHull(src)
+    t = _build(tc)
+    tl = np.array(t.trilist)
+    pts = []
+    for ei, w, k in case["edge"]:
+        simplex = hull.simplices[ei % len(hull.simplices)]
+        a, b = src[simplex[0]], src[simplex[1]]
+        normal = hull.equations[ei % len(hull.simplices), :2]
+        pts.append(w * a + (1 - w) * b + normal * (k * 2.2e-15))
+    inside = objs.bary_points(tc["src"], tl, case["inside"])
+    allp = [p for p in inside] + pts
+    rot = case["order"] % len(allp)
+    allp = allp[rot:] + allp[:rot]
+    x = np.array(allp)
+    n = x.shape[0]
+    ctx.event("transform=%s" % tc["kind"])
+    base_mask, base_val = _outcome(_build(tc), x.copy(), None)
+    ctx.event("unbatched: %s" % ("all inside" if base_val is not None else "some outside"))
+    alone = np.array([_outcome(_build(tc), x[i : i + 1].copy(), None)[0][0] for i in range(n)])
+    ctx.expect(np.array_equal(alone, base_mask), "boundary.membership_depends_on_other_points_in_the_call",
+               lambda: "each point alone: outside=%s; all in one call: outside=%s" % (alone.astype(int).tolist(), base_mask.astype(int).tolist()))
+    ctx.nontrivial(True)
+    for k in case["ks"]:
+        m, v = _outcome(t, x.copy(), k)
+        if not ctx.expect(m.shape == (n,), "boundary.mask_length", "batch_size=%d: %r" % (k, m.shape)):
+            continue
+        ctx.expect(np.array_equal(m, base_mask), "boundary.batch_size_changes_domain_membership",
+                   lambda: "batch_size=%d: outside=%s, unbatched: outside=%s" % (k, m.astype(int).tolist(), base_mask.astype(int).tolist()))
+        if v is not None and base_val is not None:
+            ctx.expect(close(v, base_val, rtol=0, atol=1e-12 * (1 + np.abs(base_val).max())), "boundary.batched_values_differ", lambda: describe(v, base_val))
+
+
 CLAUSES = [
     Clause("history", c_history, s_history, quick=1500, thorough=40000, nt_floor=0.5,
            rule="apply histories on one instance; non-trivial: >=3 applies with a re-used / perturbed input, or a mixed-domain apply"),
     Clause("batch", c_batch, s_batch, quick=2500, thorough=80000, nt_floor=0.3,
            rule="apply(x, batch_size=k) == apply(x); non-trivial: k does not divide n or exceeds it"),
+    Clause("boundary", c_boundary, s_boundary, quick=800, thorough=25000, nt_floor=0.5,
+           rule="piecewise affine: points on / within a few ulps of the domain boundary mixed with interior points; outcome "
+                "(result or failure mask) identical for every batch size and for each point alone (differential, no "
+                "containment reference)"),
     Clause("constrain", c_constrain, s_constrain, quick=600, thorough=15000, nt_floor=0.5,
            rule="BooleanImage.constrain_to_pointcloud independent of batch size and equal to the convex-hull reference"),
 ]
